@@ -103,7 +103,7 @@ func (c *simdRun) eval(xs []uint64, k uint64, desc func() string) (s, n int16, o
 		defer func() {
 			if p := recover(); p != nil {
 				ok = false
-				c.r.Fail("C20", fmt.Sprintf("Search panicked / faulted: %v", p), desc())
+				c.r.Fail("C20", fmt.Sprintf("Search panicked or faulted (in the guard-page test a fault means a read beyond len(xs)): %v", p), desc())
 			}
 		}()
 		s = simd.Search(xs, k)
